@@ -73,7 +73,7 @@ PROPS["C07"] = dict(
 )
 
 PROPS["C05"] = dict(
-    units=["retry", "builders3"],
+    units=["retry", "builders3", "backoffcfg"],
     title="Retry: bounded attempts, last outcome",
     level_text="Deductive proof (Verus) on the real retry loop (whole body of Retry::call, RetryPolicy::{should_retry,next_backoff}, MaxAttemptsSource::get_max_attempts): for every request, predicate, "
                "backoff function, budget and every sequence of inner outcomes, 1 <= attempts <= max(1,max_attempts); the result is exactly the last inner outcome; a retry happens only after an error the predicate "
@@ -154,7 +154,7 @@ PROPS["C15"] = dict(
 )
 
 PROPS["C16"] = dict(
-    units=["reconnect", "builders3"],
+    units=["reconnect", "builders3", "backoffcfg"],
     title="Reconnect retries only connection failures, a bounded number of times",
     level_text="Deductive proof (Verus) on the real hand-written future ReconnectFuture::poll (pin projection erased), ReconnectService::call, ReconnectConfig::should_reconnect, ReconnectPolicy::delay_for_attempt and the "
                "published-state functions: an invariant of the future between polls (Calling: calls == attempt+1; Sleeping: the pending sleep is exactly policy.delay_for_attempt(attempt), the stored error is the last inner "
@@ -247,7 +247,7 @@ PROPS["C19"] = dict(
 )
 
 PROPS["C14"] = dict(
-    units=["reconnect", "retry"],
+    units=["reconnect", "retry", "backoffcfg"],
     kani=[
         dict(name="backoff_total_and_capped", crate="backoff", harness="backoff_total_and_capped", tags=["C14"],
              claim="capped_exponential (the text of /repo, powi abstracted): no panic / overflow and result <= max_interval for ALL Durations, attempts in usize, multipliers in [1,10], caps; the exponent saturates at i32::MAX instead of wrapping",
@@ -268,7 +268,7 @@ PROPS["C14"] = dict(
     ],
     title="Backoff delays are total, monotone and capped",
     level_text="Kani (CBMC), loop-free harnesses over the FULL input domain on the functions extracted from /repo on every run (capped_exponential, ExponentialRandomBackoff::randomize): total, never above max_interval, "
-               "exponent saturates, jitter never panics. Verus: ReconnectPolicy::delay_for_attempt and RetryPolicy::next_backoff delegate to exactly the configured interval function for this attempt.",
+               "exponent saturates, jitter never panics. Verus: ReconnectPolicy::delay_for_attempt and RetryPolicy::next_backoff delegate to exactly the configured interval function for this attempt; the constructors and setters of FixedInterval / ExponentialBackoff / ExponentialRandomBackoff and of ReconnectPolicy (none, fixed, exponential, exponential_random, default) store exactly the given initial interval, multiplier and cap, and next_interval hands exactly those and this attempt number to capped_exponential (unit backoffcfg).",
     level_note="f64::powi is abstracted by an assumed contract (CBMC's own model costs minutes); 'equal to initial x multiplier^attempt below the cap' is the extracted text itself; MONOTONICITY in the attempt number is decided only at its two ends (zero stays zero; a positive interval never yields zero and yields exactly the cap once the power has overflowed); in between it is NOT decided: "
                "it needs IEEE monotonicity of x*m, of from_secs_f64 and of powi in the exponent — all three were tried as Kani leaves and did not close in 20 min, they are named assumptions, not obligations.",
     technique="Kani function-level proofs (loop-free, full domain) on mechanically extracted functions; Verus for the delegation",
